@@ -201,6 +201,10 @@ class Domain:
     def want_inline(self, callee: FuncInfo, fr: Frame) -> bool:
         return True
 
+    def on_loop_edge(self, st, loopnode, fr: Frame):
+        """At the end of an iteration and at loop exit (facts about the loop's own variables expire)."""
+        return st
+
 
 class WriteEvent:
     __slots__ = ("path", "owner", "field", "node", "fr", "how", "value", "recv", "key")
@@ -805,6 +809,9 @@ class Interp:
 
     def exec_stmt(self, st: ast.stmt, fr: Frame, S: set) -> set:
         self.stmts_walked += 1
+        if self.stmts_walked > 1_500_000 or len(S) > 60_000:
+            raise AnalysisError(f"analysis budget exceeded in {fr.func.qualname} ({self.stmts_walked} statements, {len(S)} states): "
+                                f"the abstract state space of this entry point is too large to decide")
         S = self._dom_each(S, lambda s: self.dom.on_stmt(s, st, fr))
         if isinstance(st, ast.Expr):
             _, S = self.ev(st.value, fr, S)
@@ -916,10 +923,11 @@ class Interp:
                     body_in = self.assign_target(st.target, st, None, fr, body_in, "bind")
             ctx["continues"] = set()
             out = self.exec_block(st.body, fr, body_in) if body_in else set()
-            frontier = out | ctx["continues"]
+            frontier = {self.dom.on_loop_edge(s, st, fr) for s in (out | ctx["continues"])}
             first = False
         fr.loops.pop()
-        res = exit_states
+        ctx["breaks"] = {self.dom.on_loop_edge(s, st, fr) for s in ctx["breaks"]}
+        res = {self.dom.on_loop_edge(s, st, fr) for s in exit_states}
         if st.orelse:
             res = self.exec_block(st.orelse, fr, res)
         return res | ctx["breaks"]
